@@ -30,7 +30,16 @@ pub(super) fn execute_skip<'a, S: GraphSnapshot + 'a>(
         Err(err) => return PlanIterator::Dynamic(Box::new(std::iter::once(Err(err)))),
     };
     let input_iter = execute_plan(snapshot, input, params);
-    PlanIterator::Dynamic(Box::new(input_iter.skip(skip)))
+    // SKIP drops rows, not errors: an error raised by the input (a runtime error in a skipped
+    // row, a resource limit) is passed on instead of being counted as one of the skipped rows.
+    let mut remaining = skip;
+    PlanIterator::Dynamic(Box::new(input_iter.filter(move |item| {
+        if item.is_ok() && remaining > 0 {
+            remaining -= 1;
+            return false;
+        }
+        true
+    })))
 }
 
 pub(super) fn execute_limit<'a, S: GraphSnapshot + 'a>(
